@@ -163,7 +163,11 @@ GNext == Next /\ out' = ToJson(Describe)
 GSpec == GInit /\ [][GNext]_<<vars, out>>
 (* clock behaviours for replay: the request presented first is presented again and again while   *)
 (* the clock advances (a random walk over all requests would hardly ever present a token twice)  *)
-CNext == GNext /\ (n' = n + 1 /\ n > 0 => req' = req)
+(* ... and that first request is one the contract accepts in SOME environment (at some time / for *)
+(* some user table), so that the behaviour shows acceptance turning into rejection and back      *)
+Interesting(c, r) == \E t \in Now0..MaxNow, us \in (IF c.basic = "etcd" THEN UserTables ELSE {Users0}) :
+                        Verdict(c, r, Env(t, us)) = "accept"
+CNext == GNext /\ (n' = n + 1 => IF n > 0 THEN req' = req ELSE Interesting(cfg, req'))
 CSpec == GInit /\ [][CNext]_<<vars, out>>
 (* the same behaviours without the cost of describing them (model checking only) *)
 MSpec == Init /\ out = "" /\ [][Next /\ UNCHANGED out]_<<vars, out>>
